@@ -26,7 +26,8 @@ def bounds(tier):
 
 
 def cases(tier, seed):
-    out = [{"input": {"kind": "tuple", "idx": t}} for t in invcheck.tuples(tier)]
+    out = [{"input": {"kind": "tuple", "idx": t, "counter": c}} for t in invcheck.tuples(tier)
+           for c in ((0,) if len(t) == 1 else (0, 9, 8, 99) if len(t) == 2 else (0, 8) if len(t) == 3 else (0, 7))]
     from ..invloops import loop_cases
 
     out += loop_cases(tier)
@@ -35,7 +36,7 @@ def cases(tier, seed):
 
 def run_case(case):
     if case["input"]["kind"] == "tuple":
-        return invcheck.check_tuple(case["input"]["idx"], "sound", 0)
+        return invcheck.check_tuple(case["input"]["idx"], "sound", 0, case["input"].get("counter", 0))
     from ..invloops import check_loop
 
     return check_loop(case["input"], "sound")
